@@ -725,13 +725,18 @@ def matrix_ops(R, rng, sr, m, v, dt):
         R.oracle('einsum_trace', 'scalar', m.einsum('aa->'), dt, [m], allow_py=True)
     mm = m @ m
     R.oracle('matmul', 'result', mm, dt, [m])
+    xsol = None
     if not ferm:
         b = sr.AbelianArray(indices=(m.indices[0],), charge=m.symmetry.combine(), symmetry=symname(m),
                             blocks={(k[0],): gauss(rng, (m.blocks[k].shape[0],), dt) for k in keys[:max(1, len(keys) - 1)]})
         mw = m.copy()
         for k in keys:
             mw.blocks[k] = mw.blocks[k] + (5 * np.eye(mw.blocks[k].shape[0])).astype(dt)
-        xsol = sr.linalg.solve(mw, b)
+        try:
+            xsol = sr.linalg.solve(mw, b)
+        except np.linalg.LinAlgError:
+            xsol = None      # the shifted random matrix happens to be singular: no solution whose element type could be judged
+    if not ferm and xsol is not None:
         R.expr('solve', 'otarr_eqb (solve %s %s %s) (Some %s)' % (
             glist([gopt('(%s, %s)' % (gsec((k[0],)), gsec((k[1],))) if (k[0],) in b.blocks else None) for k in keys]),
             gin, gtarr(tags_of(b)), gtarr(tags_of(xsol))), None)
